@@ -147,6 +147,136 @@ def h_requests(ctx, cfg):
     ctx.observe("n_original_calls", [float(len(log))])
 
 
+def h_evaluate_functions(ctx, cfg):
+    """EvaluationProblem.evaluate_functions: objective, constraint and observable values/Jacobians at the physical point of
+    the design vector, whichever coordinates the caller uses and the functions expect."""
+    from gemseo.algos.optimization_problem import OptimizationProblem
+    from gemseo.core.mdo_functions.mdo_function import MDOFunction
+
+    install_hash_stub(ctx)
+    install_np_array_stub(ctx)
+    ds, info = build_space(ctx, LAYOUTS[cfg["layout"]])
+    n = info.n
+    log = []
+    fo, jo, F, dF = uf_function(ctx, "F", 1, n, log=log)
+    fg, jg, G, dG = uf_function(ctx, "G", 2, n, log=log)
+    fh, jh, H, dH = uf_function(ctx, "H", 1, n, log=log)
+    problem = OptimizationProblem(ds)
+    problem.objective = MDOFunction(fo, "f", jac=jo)
+    problem.add_constraint(MDOFunction(fg, "g", jac=jg), constraint_type="ineq")
+    problem.add_observable(MDOFunction(fh, "h", jac=jh))
+    pre_norm, vec_norm = cfg["preprocess_normalized"], cfg["vector_normalized"]
+    if cfg["preprocess"]:
+        problem.preprocess_functions(is_function_input_normalized=pre_norm, use_database=cfg["use_db"], round_ints=False)
+    p = ctx.reals("p_", n)
+    pe = elems(p)
+    for j in range(n):
+        if vec_norm and info.normalized(j):
+            ctx.assume(ctx.and_(ctx.le(0.0, pe[j]), ctx.le(pe[j], 1.0)))
+        elif info.kind[j] in "BC":
+            ctx.assume(ctx.and_(ctx.le(info.lb[j], pe[j]), ctx.le(pe[j], info.ub[j])))
+        elif info.kind[j] == "E":
+            ctx.assume(ctx.eq(pe[j], info.lb[j]))
+    xp = info.phys(ctx, pe, rounding=False) if vec_norm else pe
+    want_jac = cfg["jac"]
+    outs, jacs = problem.evaluate_functions(design_vector=p, design_vector_is_normalized=vec_norm, output_functions=(),
+                                            jacobian_functions=() if want_jac else None)
+    funcs_normalized = cfg["preprocess"] and pre_norm     # coordinates in which the Jacobians are expressed
+    for name, U, dU, m in (("f", F, dF, 1), ("g", G, dG, 2), ("h", H, dH, 1)):
+        ctx.check(f"{name} evaluated", ctx.true() if name in outs else ctx.false())
+        if name in outs:
+            check_array(ctx, f"value {name}", np.ravel(outs[name]), [U[i](*xp) for i in range(m)])
+            ctx.observe(f"value {name}", np.ravel(outs[name]))
+        if want_jac:
+            ctx.check(f"jacobian of {name} evaluated", ctx.true() if name in jacs else ctx.false())
+            if name in jacs:
+                exp = [[dU[i][j](*xp) * (info.scale(j) if funcs_normalized else 1.0) for j in range(n)] for i in range(m)]
+                check_array(ctx, f"jac {name}", jacs[name], exp)
+    check_array(ctx, "design vector untouched", p, [ctx.real(f"p_{j}") for j in range(n)])
+    if cfg["preprocess"] and cfg["use_db"]:
+        items = db_items(problem.database)
+        ctx.check("one database entry", ctx.true() if len(items) == 1 else ctx.false())
+        for key, outs_ in items:
+            check_array(ctx, "db key is the physical point", key, xp)
+            for name, U, m in (("f", F, 1), ("g", G, 2), ("h", H, 1)):
+                if name in outs_:
+                    check_array(ctx, f"db[{name}]", np.ravel(outs_[name]), [U[i](*xp) for i in range(m)])
+
+
+def h_fd(ctx, cfg):
+    """Finite-difference Jacobians through the problem: the returned Jacobian is a difference quotient of the ORIGINAL function
+    in the caller's coordinates, the recorded one is its physical counterpart, and the probe points are not recorded."""
+    from gemseo.algos.optimization_problem import OptimizationProblem
+    from gemseo.core.mdo_functions.mdo_function import MDOFunction
+
+    install_hash_stub(ctx)
+    install_np_array_stub(ctx)
+    _install_fd_stubs(ctx)
+    ds, info = build_space(ctx, LAYOUTS[cfg["layout"]])
+    n, m = info.n, cfg["m"]
+    normalized = cfg["normalized"]
+    h = cfg["h"]
+    log = []
+    func, _, F, _ = uf_function(ctx, "F", m, n, log=log)
+    problem = OptimizationProblem(ds, differentiation_method="finite_differences", differentiation_step=h)
+    problem.objective = MDOFunction(func, "f")
+    problem.preprocess_functions(is_function_input_normalized=normalized, use_database=True, round_ints=False)
+    pf = problem.objective
+    p = ctx.reals("p_", n)
+    pe = elems(p)
+    for j in range(n):
+        if normalized and info.normalized(j):
+            ctx.assume(ctx.and_(ctx.le(0.0, pe[j]), ctx.le(pe[j], 1.0)))
+        elif info.kind[j] in "BC":
+            ctx.assume(ctx.and_(ctx.le(info.lb[j], pe[j]), ctx.le(pe[j], info.ub[j])))
+    if cfg.get("value_first"):
+        pf.evaluate(p)
+    J = pf.jac(p)
+    ctx.observe("jac", np.ravel(J))
+
+    def phys(v):
+        return info.phys(ctx, v, rounding=False) if normalized else v
+
+    x0 = phys(pe)
+    if check_shape(ctx, "jac", J, (m, n)):
+        Jp = _plain(J)
+        for j in range(n):
+            fw = [pe[k] + (h if k == j else 0.0) for k in range(n)]
+            bw = [pe[k] - (h if k == j else 0.0) for k in range(n)]
+            for i in range(m):
+                qf = (F[i](*phys(fw)) - F[i](*x0)) / h
+                qb = (F[i](*x0) - F[i](*phys(bw))) / h
+                ctx.check(f"jac[{i},{j}] is a forward or backward difference quotient of the original function",
+                          ctx.or_(ctx.eq(_py(Jp[i, j]), qf), ctx.eq(_py(Jp[i, j]), qb)))
+    items = db_items(problem.database)
+    ctx.check("probe points are not recorded: one entry", ctx.true() if len(items) == 1 else ctx.false())
+    for key, outs in items:
+        check_array(ctx, "db key is the physical point", key, x0)
+        if "@f" in outs and check_shape(ctx, "db[@f]", outs["@f"], (m, n)):
+            Jd, Jp = _plain(outs["@f"]), _plain(J)
+            for j in range(n):
+                sc = info.scale(j) if normalized else 1.0
+                for i in range(m):
+                    ctx.check(f"db[@f][{i},{j}] is the returned Jacobian in physical coordinates", ctx.eq(_py(Jd[i, j]) * sc, _py(Jp[i, j])))
+    # (how many times the approximator evaluates the base point is not asserted: its own evaluations are probe evaluations)
+
+
+def _install_fd_stubs(ctx):
+    if not ctx.symbolic:
+        return
+    import gemseo.utils.derivatives.base_gradient_approximator as bga
+    import gemseo.utils.derivatives.finite_differences as fdm
+    from symgem.core import SymArray, as_symarray
+
+    real_array = bga.array
+
+    def array(obj, *a, **k):
+        k.pop("dtype", None)
+        return as_symarray(obj) if isinstance(obj, (list, tuple, np.ndarray)) else real_array(obj, *a, **k)
+
+    ctx.patch(bga, "array", array)
+
+
 def _r(ctx, v):
     from harness.common import rint
 
@@ -179,6 +309,18 @@ def configs(tier):
                                                          round_ints=round_ints, K=K)))
                             out.append(("requests", dict(layout=lay, m=2, fkind="linear", normalized=normalized, use_db=use_db, store_jac=store_jac,
                                                          round_ints=round_ints, K=K)))
+    for lay in (["B", "BE", "BU"] if tier == "quick" else ["B", "BB", "BE", "BU", "LR", "E", "B,B"]):
+        for pre, pre_norm, use_db in ((False, False, False), (True, True, True), (True, False, True), (True, True, False)):
+            for vec_norm in (True, False):
+                for jac in (True, False):
+                    if tier == "quick" and not jac and not (pre and pre_norm and use_db):
+                        continue
+                    out.append(("evaluate_functions", dict(layout=lay, preprocess=pre, preprocess_normalized=pre_norm, use_db=use_db,
+                                                           vector_normalized=vec_norm, jac=jac)))
+    for lay in (["B", "BE"] if tier == "quick" else ["B", "BB", "BE", "BU"]):
+        for normalized in (True, False):
+            for m_ in (1, 2):
+                out.append(("fd", dict(layout=lay, m=m_, normalized=normalized, h=0.25, value_first=(m_ == 2))))
     # longer histories on a few layouts (three requests: a third request can hit either of two recorded points)
     for lay in (["B", "BE"] if tier == "quick" else []):
         for normalized in (True, False):
@@ -187,4 +329,4 @@ def configs(tier):
     return out
 
 
-HARNESSES = {"requests": h_requests}
+HARNESSES = {"requests": h_requests, "evaluate_functions": h_evaluate_functions, "fd": h_fd}
